@@ -329,3 +329,41 @@ pub fn folder_key_sorted(f: &FolderView) -> Value {
     s.sort_by(|a, b| a.0.cmp(&b.0));
     json!({"id": f.id, "name": f.name, "flags": f.flags, "description": f.description, "secrets": s})
 }
+
+/// Independent reference reducer over decoded folder events
+/// (specification: the creation event fixes the header; last name /
+/// flags / meta wins; create and update insert, delete removes).
+pub async fn reference_reduce(
+    events: &[sos_core::events::WriteEvent],
+) -> Result<Vault> {
+    use sos_core::events::WriteEvent;
+    let mut it = events.iter();
+    let mut vault: Vault = match it.next() {
+        Some(WriteEvent::CreateVault(b)) => sos_core::decode(b).await?,
+        _ => return Err(anyhow!("log does not start with CreateVault")),
+    };
+    let mut entries: Vec<(SecretId, sos_core::VaultCommit)> = vec![];
+    for e in it {
+        match e {
+            WriteEvent::SetVaultName(n) => vault.set_name(n.clone()),
+            WriteEvent::SetVaultFlags(f) => *vault.flags_mut() = f.clone(),
+            WriteEvent::SetVaultMeta(m) => {
+                vault.header_mut().set_meta(Some(m.clone()))
+            }
+            WriteEvent::CreateSecret(id, c)
+            | WriteEvent::UpdateSecret(id, c) => {
+                if let Some(x) = entries.iter_mut().find(|x| x.0 == *id) {
+                    x.1 = c.clone();
+                } else {
+                    entries.push((*id, c.clone()));
+                }
+            }
+            WriteEvent::DeleteSecret(id) => entries.retain(|x| x.0 != *id),
+            _ => {}
+        }
+    }
+    for (id, c) in entries {
+        vault.insert_entry(id, c);
+    }
+    Ok(vault)
+}
